@@ -20,3 +20,10 @@ MUTANTS={
  "c15_order_ignored": (U, "        let order: Vec<String> = if let Some(feature_order) = lib_data.feature_order {\n            feature_order\n        } else {", "        let order: Vec<String> = if let Some(mut feature_order) = lib_data.feature_order {\n            feature_order.sort();\n            feature_order\n        } else {", "feature order list sorted instead of honoured"),
  "h02_harmless": ([F,F], ["                    note: fontinfo_v2.note,\n                    open_type_head_created: fontinfo_v2.openTypeHeadCreated,","                            -1 => None,\n                            _ => Some(v.unsigned_abs()),"], ["                    open_type_head_created: fontinfo_v2.openTypeHeadCreated,\n                    note: fontinfo_v2.note,","                            -1 => None,\n                            w => Some(w.unsigned_abs()),"], "behaviour-preserving: two literal lines reordered, a match binder renamed"),
 }
+MUTANTS2={
+ "c16_swap_asc_cap": ([F,F], ["                    ascender: fontinfo_v2.ascender,","                    cap_height: fontinfo_v2.capHeight,"], ["                    ascender: fontinfo_v2.capHeight,","                    cap_height: fontinfo_v2.ascender,"], "v2 literal: ascender/capHeight swapped (same value 750 in the fixture)"),
+ "c17_swap_otherblues": ([F,F], ["postscript_family_other_blues: fontinfo_v2.postscriptFamilyOtherBlues,","postscript_other_blues: fontinfo_v2.postscriptOtherBlues,"], ["postscript_family_other_blues: fontinfo_v2.postscriptOtherBlues,","postscript_other_blues: fontinfo_v2.postscriptFamilyOtherBlues,"], "v2 literal: postscriptOtherBlues/postscriptFamilyOtherBlues swapped (same value in the fixture)"),
+ "c18_v1_swap_angles": ([F,F], ["                    italic_angle: fontinfo_v1.italicAngle,","postscript_slant_angle: fontinfo_v1.slantAngle,"], ["                    italic_angle: fontinfo_v1.slantAngle,","postscript_slant_angle: fontinfo_v1.italicAngle,"], "v1 literal: italicAngle/slantAngle swapped (same value -12.5 in the fixture)"),
+}
+import os
+if os.environ.get("MUT_SET")=="2": MUTANTS=MUTANTS2
